@@ -57,7 +57,7 @@ ERRNOS = {
     "fcntl": ["EINTR", "EMFILE"], "ioctl": ["EINTR"], "dup2": ["EINTR", "EMFILE"], "dup3": ["EINTR", "EMFILE"],
     "waitpid": ["EINTR"], "poll": ["EINTR"], "nanosleep": ["EINTR"], "fsync": ["EINTR"], "fdatasync": ["EINTR"],
     "ftruncate": ["EINTR"], "close": ["EINTR"], "fork": ["EAGAIN", "ENOMEM"], "statx": ["ENOMEM"],
-    "sendfile": ["EINTR", "EAGAIN"],
+    "sendfile": ["EINTR", "EAGAIN"], "bind": ["ENOMEM"], "listen": [],
 }
 
 # abort() is permitted only in these functions (DESIGN §3 C16 / property text: growing the watcher table,
@@ -225,8 +225,8 @@ def judge(ctx, run, base, sym, stats):
         elif kind == "fd-table":
             def objs(part):
                 ts = [x.split("=", 1)[1] for x in part.split() if "=" in x]
-                return sorted("file" if t.startswith("/") else re.sub(r"[\[\]0-9]+|^anon_inode:|:$", "", t) for t in ts)
-            mb = re.search(r"before\[(.*?)\] after\[(.*?)\]", detail)
+                return sorted("file" if t.startswith("/") else re.sub(r"^anon_inode:|[\[\]0-9:]+", "", t) for t in ts)
+            mb = re.search(r"before\[(.*)\] after\[(.*)\]\s*$", detail)
             b, a = objs(mb.group(1)), objs(mb.group(2))
             for x in b:
                 if x in a: a.remove(x)
